@@ -95,3 +95,87 @@ def s01(tier, seed):
         run.witness("verdict_" + r["verdict"])
     run.sample({"request": rows[0]})
     run.finish(require_witnesses=["verdict_accepted", "verdict_office", "verdict_policy", "verdict_estimator_param"])
+
+
+# ---------------------------------------------------------------------------------------------------------------
+# S02: evaluation metrics of a historical run
+
+
+def _job_metrics(rows_batch):
+    import math
+    import warnings
+    from fractions import Fraction
+
+    import pandas as pd
+
+    from harness import synth  # noqa: F401
+    from elexmodel.client import HistoricalModelClient
+
+    warnings.filterwarnings("ignore")
+    c = HistoricalModelClient()
+    bad = []
+    for sc in rows_batch:
+        rows = sc["rows"]
+        est = pd.DataFrame(
+            {"postal_code": [r["g"] for r in rows], "geographic_unit_fips": [f"u{i}" for i in range(len(rows))],
+             "pred_turnout": [float(r["p"]) for r in rows], "lower_0.9_turnout": [float(r["lo"]) for r in rows], "upper_0.9_turnout": [float(r["hi"]) for r in rows]}
+        )
+        res = pd.DataFrame({"postal_code": [r["g"] for r in rows], "geographic_unit_fips": [f"u{i}" for i in range(len(rows))], "raw_results_turnout": [float(r["t"]) for r in rows]})
+        try:
+            per = c.compute_evaluation(est, res, ["postal_code", "geographic_unit_fips"], ["postal_code"], [0.9], "turnout")
+            allg = c.compute_evaluation(est, res, ["postal_code", "geographic_unit_fips"], lambda x: True, [0.9], "turnout")[True]
+        except Exception as e:  # noqa: BLE001
+            bad.append({"clause": "evaluation_raised", "exc": f"{type(e).__name__}: {str(e)[:200]}", "scenario": sc})
+            continue
+        obs = dict(per)
+        obs["all"] = allg
+        for g, want in sc["report"].items():
+            o = obs.get(g)
+            if o is None:
+                bad.append({"clause": "group_missing", "group": g, "scenario": sc})
+                continue
+
+            def close(x, fr):
+                return not (math.isnan(x) or math.isinf(x)) and abs(x - float(Fraction(fr[0], fr[1]))) < 1e-9
+
+            ok = close(o["mae_turnout"], want["mae"]) and close(o["frac_within_pi_0.9_turnout"], want["within"])
+            if want["mape"]["kind"] == "nan":
+                ok = ok and math.isnan(o["mape_turnout"])
+            else:
+                ok = ok and close(o["mape_turnout"], want["mape"]["v"])
+            if want["length"]["kind"] == "huge":
+                ok = ok and o["mean_pi_length_0.9_turnout"] > 1e300
+            else:
+                ok = ok and close(o["mean_pi_length_0.9_turnout"], want["length"]["v"])
+            if not ok:
+                bad.append({"clause": "metric", "group": g, "expected": want, "observed": {k: (None if isinstance(v, float) and math.isnan(v) else v) for k, v in o.items()}, "scenario": sc})
+    return bad
+
+
+def s02(tier, seed):
+    """Evaluation metrics of a historical run (EvaluationMetrics.tla), every exported scenario replayed into compute_evaluation."""
+    run = report.Run("S02", tier, seed)
+    run.assumptions += ["supplementary model, not a listed property: MAE, MAPE (undefined for an all-zero group), coverage share and mean relative interval length per group and overall, as exact rationals"]
+    res = tlc.run_tlc("MC_EvaluationMetrics", "MC_EvaluationMetrics.cfg", workers=1, timeout=600, keep_stdout=False)
+    run.add_tlc("MC_EvaluationMetrics", res)
+    if res.violation:
+        run.violation(f"tlc:{res.violation}", {"model": "MC_EvaluationMetrics"}, {"trace": res.error_trace[:60]})
+    scen = [v for t, v in res.printed if t == "SCEN"]
+    rnd = random.Random(seed)
+    if tier == "quick":
+        scen = rnd.sample(scen, 3000)
+    else:
+        run.cov["exhaustive"] = True
+    jobs = [scen[i : i + 150] for i in range(0, len(scen), 150)]
+    for bads, job in zip(common.pool().map(_job_metrics, jobs, chunksize=1), jobs):
+        run.cov["scenarios_replayed_into_impl"] += len(job)
+        for b in bads:
+            run.violation(b["clause"], {"clause": b["clause"]}, b)
+    for s in scen:
+        for g, w in s["report"].items():
+            if w["mape"]["kind"] == "nan":
+                run.witness("group_with_all_zero_results")
+            if w["length"]["kind"] == "huge":
+                run.witness("zero_prediction_with_nondegenerate_interval")
+    run.sample({"scenario": scen[0]})
+    run.finish(require_witnesses=["group_with_all_zero_results", "zero_prediction_with_nondegenerate_interval"])
